@@ -69,3 +69,34 @@ _Rb_tree_node_base* _Rb_tree_rebalance_for_erase(_Rb_tree_node_base* const z, _R
     return y;
 }
 }
+
+// std::unordered_map rehash policy (libstdc++.so: hashtable_c++0x.cc). The bucket-count sequence only affects performance,
+// never the observable behaviour of the container; the model uses a short prime table and integer arithmetic, and requires the
+// default max_load_factor of 1.0 (asserted).
+#include <unordered_map>
+extern "C" void __CPROVER_assert(int, const char*) noexcept;
+namespace std { namespace __detail {
+std::size_t _Prime_rehash_policy::_M_next_bkt(std::size_t n) const
+{
+    __CPROVER_assert(_M_max_load_factor == 1.0f, "stl model: default max_load_factor");
+    __CPROVER_assert(n <= 257, "stl model: at most 257 buckets");
+    const std::size_t r = n <= 2 ? 2 : n <= 5 ? 5 : n <= 13 ? 13 : n <= 29 ? 29 : n <= 59 ? 59 : n <= 127 ? 127 : 257;
+    _M_next_resize = r;
+    return r;
+}
+std::pair<bool, std::size_t> _Prime_rehash_policy::_M_need_rehash(std::size_t n_bkt, std::size_t n_elt, std::size_t n_ins) const
+{
+    __CPROVER_assert(_M_max_load_factor == 1.0f, "stl model: default max_load_factor");
+    if (n_elt + n_ins > _M_next_resize) {
+        std::size_t min_bkts = n_elt + n_ins;
+        if (_M_next_resize == 0 && min_bkts < 11) min_bkts = 11;
+        if (min_bkts >= n_bkt) {
+            std::size_t want = min_bkts + 1; if (n_bkt * 2 > want) want = n_bkt * 2;
+            return std::make_pair(true, _M_next_bkt(want));
+        }
+        _M_next_resize = n_bkt;
+        return std::make_pair(false, std::size_t(0));
+    }
+    return std::make_pair(false, std::size_t(0));
+}
+}}
